@@ -46,7 +46,7 @@ package proposal
 //@   props C01, C02, C05, C06, C07
 //@   requires r != nil && proposal != nil && proposal.tracked && proposalSnapshotted(proposal) && proposalWellFormed(proposal) && proposalInv(proposal) && proposalKeyed(proposal)
 //@   requires proposal.Status.Phases.Validate != nil
-//@   ensures {C02} waits-for-predecessor: validateState(proposal) != old(validateState(proposal)) ==> readCfgOK && (proposal.Status.PrevIndex == 0 || readCfgCommitted == proposal.Status.PrevIndex)
+//@   ensures {C02,C05} waits-for-predecessor: validateState(proposal) != old(validateState(proposal)) ==> readCfgOK && (proposal.Status.PrevIndex == 0 || readCfgCommitted == proposal.Status.PrevIndex)
 //@   ensures {C01,C05,C06} validation-writes-no-config: cfgValueWrites == old(cfgValueWrites) && cfgStatusWrites == old(cfgStatusWrites) && cfgCreates == old(cfgCreates) && deviceSetCalls == old(deviceSetCalls)
 //@   ensures {C01,C05} validated-only-after-accept: validateState(proposal) == configapi.ProposalValidatePhase_VALIDATED && old(validateState(proposal)) == configapi.ProposalValidatePhase_VALIDATING ==> lastGetPluginOK && validateCalls == old(validateCalls) + 1 && lastValidateAccepted
 //@   ensures {C05} rejected-or-no-plugin-fails: old(validateState(proposal)) == configapi.ProposalValidatePhase_VALIDATING && ((validateCalls > old(validateCalls) && !lastValidateAccepted) || (readCfgOK && (proposal.Status.PrevIndex == 0 || readCfgCommitted == proposal.Status.PrevIndex) && !lastGetPluginOK)) ==> validateState(proposal) == configapi.ProposalValidatePhase_FAILED && proposal.Status.Phases.Validate.Failure != nil && proposal.Status.Phases.Validate.Failure.Type == configapi.Failure_INVALID
